@@ -312,7 +312,8 @@ func inputRun() error {
 		emit(ev{"ev": "ModKey", "name": k, "evs": drain(s)})
 	}
 	// mouse: every flag set x button code x callback
-	for flags := 0; flags < 8; flags++ {
+	// every flag set, going up and then coming down again: a narrower set after a wider one switches the rest off
+	for _, flags := range []int{0, 1, 2, 3, 4, 5, 6, 7, 1, 6, 2, 7, 4, 0, 7, 0} {
 		if flags == 0 {
 			s.DisableMouse()
 		} else {
